@@ -111,6 +111,13 @@ SetUnread(m, u) ==
     /\ last' = [op |-> "SetUnread", m |-> m, flag |-> u]
     /\ UNCHANGED <<dirs, outbox, sent, inbox, deferred, prepared, sendOnly>>
 
+(* The read/unread marker may be applied to any loaded message; on an       *)
+(* outbound message it is private bookkeeping that must never be offered.   *)
+SetUnreadOut(m, u) ==
+    /\ m \in outbox                          \* CONTRACT: the message was loaded from the outbox
+    /\ last' = [op |-> "SetUnreadOut", m |-> m, flag |-> u]
+    /\ UNCHANGED <<dirs, outbox, sent, inbox, unread, deferred, prepared, sendOnly>>
+
 Next ==
     \/ Prepare
     \/ \E so \in BOOLEAN : Restart(so)
@@ -119,7 +126,7 @@ Next ==
          \/ \E rej \in BOOLEAN : SetSent(m, rej)
          \/ SetDeferred(m)
          \/ ProcessInbound(m)
-         \/ \E u \in BOOLEAN : SetUnread(m, u)
+         \/ \E u \in BOOLEAN : SetUnread(m, u) \/ SetUnreadOut(m, u)
 
 Spec == Init /\ [][Next]_vars
 
